@@ -337,7 +337,9 @@ impl StrictDoc {
         let sx = rfind(bytes, b"startxref").ok_or("no startxref")?;
         let mut p = P { b: bytes, i: sx + 9 };
         let xoff = p.uint()? as usize;
-        p.skip_ws();
+        while p.i < bytes.len() && is_ws(bytes[p.i]) {
+            p.i += 1;
+        }
         if !bytes[p.i..].starts_with(b"%%EOF") {
             return Err("no %%EOF after startxref".into());
         }
